@@ -372,3 +372,152 @@ Proof.
   - destruct (chars_next_spec st I) as [[_ ->] | (e & r & _ & _ & _ & ->)]; eexists; reflexivity.
   - destruct (chars_next_back_spec st I) as [[_ ->] | (l & e & _ & _ & _ & ->)]; eexists; reflexivity.
 Qed.
+
+(* ------------------------------------------------------------------ char_indices / rchar_indices *)
+
+Definition shift (d : Z) (p : Z * Z) : Z * Z := (d + fst p, snd p).
+
+Lemma combine_offs_shift {B} es : forall o d (ds : list B),
+  combine (offs (d + o) es) ds = map (fun p => (d + fst p, snd p)) (combine (offs o es) ds).
+Proof.
+  induction es as [|e es IH]; intros o d ds; [reflexivity|].
+  destruct ds as [|y ds]; [reflexivity|]. cbn [offs combine map fst snd]. f_equal.
+  rewrite <- Z.add_assoc. apply IH.
+Qed.
+
+Lemma offs_app a : forall o b, offs o (a ++ b) = offs o a ++ offs (o + zlen (concat a)) b.
+Proof.
+  induction a as [|e a IH]; intros o b.
+  - cbn [app offs concat]. rewrite zlen_nil, Z.add_0_r. reflexivity.
+  - cbn [app offs concat]. rewrite IH, zlen_app, Z.add_assoc. reflexivity.
+Qed.
+
+Lemma combine_app' {A B} (a1 a2 : list A) (b1 b2 : list B) : length a1 = length b1 ->
+  combine (a1 ++ a2) (b1 ++ b2) = combine a1 b1 ++ combine a2 b2.
+Proof.
+  revert b1; induction a1 as [|x a1 IH]; intros [|y b1] H; cbn in H; try discriminate; [reflexivity|].
+  cbn [app combine]. f_equal. apply IH. lia.
+Qed.
+
+Lemma char_indices_app_wf e x : wf e -> utf8 x = true ->
+  char_indices (e ++ x) = (0, dec_char e) :: map (shift (zlen e)) (char_indices x).
+Proof.
+  intros W U. unfold char_indices, utf8 in *. rewrite segs_step by exact W.
+  destruct (segs x) as [es|]; [|discriminate]. cbn [consopt offs map combine]. f_equal.
+  rewrite (Z.add_comm 0). apply combine_offs_shift.
+Qed.
+
+Lemma char_indices_app_wf_r l e : utf8 l = true -> wf e ->
+  char_indices (l ++ e) = char_indices l ++ [(zlen l, dec_char e)].
+Proof.
+  intros U W. apply utf8_iff in U as (es & -> & F).
+  replace (concat es ++ e) with (concat (es ++ [e])) by (rewrite concat_app; cbn [concat]; now rewrite app_nil_r).
+  unfold char_indices. rewrite (segs_complete es F).
+  rewrite (segs_complete (es ++ [e])) by (apply Forall_app; split; [exact F | now constructor]).
+  rewrite offs_app, map_app, combine_app' by now rewrite offs_length, map_length.
+  cbn [offs map combine]. now rewrite Z.add_0_l.
+Qed.
+
+Definition cidx_next' (st : cidx_st) := unres (cidx_next st).
+Definition cidx_next_back' (st : cidx_st) := unres (cidx_next_back st).
+Definition cidx_inv (st : cidx_st) : Prop := utf8 (i_this st) = true.
+(** the pairs still to come: std's char_indices of the remaining string, offset by [start_offset] *)
+Definition cidx_abs (st : cidx_st) : list (Z * Z) := map (shift (i_off st)) (char_indices (i_this st)).
+
+Lemma cidx_next_spec st : cidx_inv st ->
+  (i_this st = [] /\ cidx_next st = Ok None) \/
+  (exists e r, i_this st = e ++ r /\ wf e /\ utf8 r = true /\
+     cidx_next st = Ok (Some ((i_off st, dec_char e),
+        {| i_this := r; i_base := i_base st + zlen e; i_off := i_off st + zlen e |}))).
+Proof.
+  unfold cidx_inv. intros U. destruct (utf8_segs _ U) as (es & _ & E & F).
+  destruct F as [|e es He F]; [left | right].
+  - cbn [concat] in E. unfold cidx_next. rewrite E. split; reflexivity.
+  - cbn [concat] in E. exists e, (concat es). pose proof (utf8_concat es F) as Ur.
+    split; [exact E|]. split; [exact He|]. split; [exact Ur|].
+    unfold cidx_next. rewrite E, front_step_wf by trivial. cbn [fst snd].
+    replace (zlen (concat es)) with (zlen (e ++ concat es) - zlen e) by (rewrite zlen_app; lia).
+    now rewrite sub_suffix.
+Qed.
+
+Lemma cidx_next_back_spec st : cidx_inv st ->
+  (i_this st = [] /\ cidx_next_back st = Ok None) \/
+  (exists l e, i_this st = l ++ e /\ utf8 l = true /\ wf e /\
+     cidx_next_back st = Ok (Some ((i_off st + zlen l, dec_char e),
+        {| i_this := l; i_base := i_base st + 0; i_off := i_off st |}))).
+Proof.
+  unfold cidx_inv. intros U. destruct (utf8_segs _ U) as (es & _ & E & F).
+  destruct es as [|e0 es0] eqn:Ees; [left | right].
+  - cbn [concat] in E. unfold cidx_next_back. rewrite E. split; reflexivity.
+  - assert (Nn : es <> []) by (rewrite Ees; discriminate). rewrite <- Ees in *.
+    destruct (exists_last Nn) as (es' & e & ->).
+    apply Forall_app in F as [F' Fe]. inversion Fe as [|? ? He _]; subst.
+    rewrite concat_app in E. cbn [concat] in E. rewrite app_nil_r in E.
+    exists (concat es'), e. pose proof (utf8_concat es' F') as Ul.
+    split; [exact E|]. split; [exact Ul|]. split; [exact He|].
+    unfold cidx_next_back. rewrite E, back_step_wf by trivial. cbn [fst snd].
+    now rewrite sub_prefix.
+Qed.
+
+Lemma cidx_next_ok st : cidx_inv st ->
+  match cidx_next' st with
+  | None => cidx_abs st = []
+  | Some (x, st') => cidx_abs st = x :: cidx_abs st' /\ cidx_inv st'
+  end.
+Proof.
+  intros I. unfold cidx_next', cidx_abs.
+  destruct (cidx_next_spec st I) as [[E ->] | (e & r & E & W & U & ->)];
+    cbn [unres]; rewrite E; [reflexivity|].
+  cbn [i_this i_off]. split; [|exact U].
+  rewrite char_indices_app_wf by trivial. cbn [map]. unfold shift at 1. cbn [fst snd].
+  rewrite Z.add_0_r. f_equal. rewrite map_map. apply map_ext. intros [o c]. unfold shift. cbn [fst snd].
+  now rewrite Z.add_assoc.
+Qed.
+
+Lemma cidx_next_back_ok st : cidx_inv st ->
+  match cidx_next_back' st with
+  | None => cidx_abs st = []
+  | Some (x, st') => cidx_abs st = cidx_abs st' ++ [x] /\ cidx_inv st'
+  end.
+Proof.
+  intros I. unfold cidx_next_back', cidx_abs.
+  destruct (cidx_next_back_spec st I) as [[E ->] | (l & e & E & U & W & ->)];
+    cbn [unres]; rewrite E; [reflexivity|].
+  cbn [i_this i_off]. split; [|exact U].
+  rewrite char_indices_app_wf_r by trivial. now rewrite map_app.
+Qed.
+
+Lemma shift_0 l : map (shift 0) l = l.
+Proof. rewrite <- (map_id l) at 2. apply map_ext. now intros [o c]. Qed.
+
+(** C07: every interleaving of [char_indices(s)] yields std's (offset, char) pairs *)
+Theorem char_indices_refines s : utf8 s = true -> forall h,
+  run _ _ cidx_next' cidx_next_back' h (cidx_init s) = deque_run h (char_indices s).
+Proof.
+  intros U h.
+  rewrite (run_refines _ _ cidx_next' cidx_next_back' cidx_abs cidx_inv
+             cidx_next_ok cidx_next_back_ok h (cidx_init s) U).
+  unfold cidx_abs, cidx_init. cbn [i_this i_off]. now rewrite shift_0.
+Qed.
+
+Definition rcidx_next' (st : cidx_st) := unres (rcidx_next st).
+Definition rcidx_next_back' (st : cidx_st) := unres (rcidx_next_back st).
+
+Theorem rchar_indices_refines s : utf8 s = true -> forall h,
+  run _ _ rcidx_next' rcidx_next_back' h (cidx_init s) = deque_run h (rev (char_indices s)).
+Proof.
+  intros U h.
+  change (run _ _ rcidx_next' rcidx_next_back' h (cidx_init s))
+    with (run _ _ cidx_next_back' cidx_next' h (cidx_init s)).
+  rewrite (rev_run_refines _ _ cidx_next' cidx_next_back' cidx_abs cidx_inv
+             cidx_next_ok cidx_next_back_ok h (cidx_init s) U).
+  unfold cidx_abs, cidx_init. cbn [i_this i_off]. now rewrite shift_0.
+Qed.
+
+Theorem char_indices_never_panics st : cidx_inv st ->
+  (exists o, cidx_next st = Ok o) /\ (exists o, cidx_next_back st = Ok o).
+Proof.
+  intros I. split.
+  - destruct (cidx_next_spec st I) as [[_ ->] | (e & r & _ & _ & _ & ->)]; eexists; reflexivity.
+  - destruct (cidx_next_back_spec st I) as [[_ ->] | (l & e & _ & _ & _ & ->)]; eexists; reflexivity.
+Qed.
